@@ -47,6 +47,18 @@ func sqlLex(src string) ([]sqlTok, error) {
 			}
 			toks = append(toks, sqlTok{kind: "str", text: src[i+1 : j]})
 			i = j + 1
+		case c == '?' && i+1 < len(src) && src[i+1] >= '0' && src[i+1] <= '9':
+			// SQLite's numbered form ?N; a plain ? that follows is numbered one past the largest number assigned so far
+			j := i + 1
+			for j < len(src) && src[j] >= '0' && src[j] <= '9' {
+				j++
+			}
+			n, _ := strconv.Atoi(src[i+1 : j])
+			toks = append(toks, sqlTok{kind: "param", n: n - 1})
+			if n > qmark {
+				qmark = n
+			}
+			i = j
 		case c == '?':
 			toks = append(toks, sqlTok{kind: "param", n: qmark})
 			qmark++
